@@ -1024,15 +1024,23 @@ impl Graph {
         let mut temp_values = ValueMap::new();
         temp_values.enable_mem_profiling(profiler.is_some());
 
+        // IDs of all values supplied by the caller. A supplied value takes
+        // precedence over a value with the same ID computed by an operator in
+        // the plan (eg. another output of a multi-output operator).
+        let supplied_ids: SmallVec<[NodeId; 8]> = inputs.iter().map(|(id, _)| *id).collect();
+
         // Extract all owned tensor inputs into the owned value map.
         //
         // This enables these inputs to be used for in-place operations or
-        // returned directly as outputs.
+        // returned directly as outputs. Values supplied for constant nodes are
+        // ignored, as constants always take precedence.
         #[cfg(rten_verif)]
         let mut verif_owned: Vec<(u32, usize)> = Vec::new();
         let mut idx = 0;
         while idx < inputs.len() {
-            if matches!(inputs[idx], (_, ValueOrView::Value(_))) {
+            if matches!(inputs[idx], (_, ValueOrView::Value(_)))
+                && !matches!(self.nodes.get(&inputs[idx].0), Some(Node::Constant(_)))
+            {
                 let (node_id, ValueOrView::Value(outp)) = inputs.remove(idx) else {
                     unreachable!();
                 };
@@ -1404,7 +1412,9 @@ impl Graph {
 
             #[cfg(rten_verif)]
             for (output_id, output) in op_node.output_ids().iter().zip(outputs.iter()) {
-                if let Some(id) = output_id {
+                if let Some(id) = output_id
+                    && !supplied_ids.contains(id)
+                {
                     verif_exec::record(|depth| verif_exec::Event::Stored {
                         depth,
                         id: id.as_u32(),
@@ -1419,7 +1429,9 @@ impl Graph {
                     .output_ids()
                     .iter()
                     .zip(outputs)
-                    .filter_map(|(output_id, output)| output_id.map(|id| (id, output))),
+                    .filter_map(|(output_id, output)| output_id.map(|id| (id, output)))
+                    // Never replace or shadow a value supplied by the caller.
+                    .filter(|(id, _)| !supplied_ids.contains(id)),
             );
 
             // Remove temporary values that are no longer needed
